@@ -4,9 +4,9 @@
     [tab = crc16_table_ref] is discharged for the table translated from the
     source in C17_gen.v. *)
 From Coq Require Import List NArith ZArith Arith Lia Bool.
-From Tongo Require Import Lib.Bits Lib.Res Model.Address Model.Shard Model.Adnl Model.AddressTlb
+From Tongo Require Import Lib.Bits Lib.Res Model.Address Model.Shard Model.Adnl Model.AddressTlb Model.AddressJson
   Proofs.Crc16P Proofs.Base64P Proofs.AddressP Proofs.AddressRawP Proofs.ShardP Proofs.AdnlP
-  Proofs.AddressTlbP Proofs.ShardP2.
+  Proofs.AddressTlbP Proofs.ShardP2 Proofs.AddressJsonP.
 Import ListNotations.
 Local Open Scope N_scope.
 
@@ -166,6 +166,36 @@ Theorem C17_anycast_rewrite :
 Proof. exact anycast_rewrite_full. Qed.
 Print Assumptions C17_anycast_rewrite.
 
+(** ** JSON form of the TL-B address (tlb.MsgAddress MarshalJSON / UnmarshalJSON:
+       what a message or transaction holding id.ToMsgAddress() shows as JSON) *)
+
+(** every int8 workchain -128..127 x every 32-byte address:
+    AccountID -> ToMsgAddress -> JSON -> MsgAddress gives back the same addr_std
+    value (so its TL-B bits are unchanged) and AccountIDFromTlb the same account *)
+Theorem C17_tlb_json_roundtrip :
+  forall wc addr,
+  (-128 <= wc < 128)%Z -> length addr = 32%nat -> bytes_ok addr ->
+  ma_json_parse (account_to_ma_json wc addr) = Ok (to_msg_address wc addr) /\
+  account_from_ma_json (account_to_ma_json wc addr) = Ok (Some (wc, addr)).
+Proof. exact ma_json_account_roundtrip. Qed.
+Print Assumptions C17_tlb_json_roundtrip.
+
+(** every addr_std value, with or without anycast (any uint32 depth / prefix) *)
+Theorem C17_tlb_json_std_roundtrip :
+  forall any wc addr,
+  any_json_ok any -> (-128 <= wc < 128)%Z -> length addr = 32%nat -> bytes_ok addr ->
+  ma_json_parse (ma_json_print (MAStd any wc addr)) = Ok (MAStd any wc addr).
+Proof. exact ma_json_std_roundtrip. Qed.
+Print Assumptions C17_tlb_json_std_roundtrip.
+
+Theorem C17_tlb_json_none_roundtrip : ma_json_parse (ma_json_print MANone) = Ok MANone.
+Proof. exact ma_json_none_roundtrip. Qed.
+
+(** the text is the same as AccountID.MarshalJSON's (quoted raw form) *)
+Theorem C17_tlb_json_is_raw_json :
+  forall wc addr, (-128 <= wc < 128)%Z -> account_to_ma_json wc addr = json_marshal wc addr.
+Proof. exact ma_json_is_raw. Qed.
+
 (** ** shard identifiers (uint64 image of the int64) *)
 
 (** every non-zero value parses and encodes back to itself; zero is refused *)
@@ -314,3 +344,10 @@ Example C17_to_msg_address_truncates :
   to_msg_address 256 (repeat 0 32) = MAStd None 0 (repeat 0 32) /\
   to_msg_address (-129) (repeat 0 32) = MAStd None 127 (repeat 0 32).
 Proof. split; reflexivity. Qed.
+
+(* the lowest int8 workchain through the JSON form of the TL-B address *)
+Example C17_tlb_json_min_workchain :
+  let addr := map N.of_nat (seq 1 32) in
+  account_from_ma_json (account_to_ma_json (-128) addr) = Ok (Some ((-128)%Z, addr)) /\
+  ma_json_parse (account_to_ma_json (-129) addr) = Ok (MAStd None 127 addr).
+Proof. cbv zeta. split; vm_compute; reflexivity. Qed.
